@@ -21,9 +21,9 @@ CLAIMED = {
  "C06": ("other", "K5 value lemmas on the 21 macro-generated _CP functions and 3 refractive-index entry points with the parser/NIST lookup replaced by assumed contracts (ghost composition)",
          "mixture rule, resolution order, density fall-back, failing element fails the call, temporaries released on every exit",
          "bounded: compositions of <= 3 (quick) / 5 (thorough) elements - labelled bounded, not proof; parser/NIST contracts assumed here"),
- "C08": ("proof", "126 UF-leaf value lemmas: three layers whose right-hand sides are generated from the macro names (Auger sums, Coster-Kronig macros, line macros) + the line dispatch with every line macro enumerated",
+ "C08": ("proof", "136 UF-leaf value lemmas: three layers whose right-hand sides are generated from the macro names (Auger sums, Coster-Kronig macros, line macros) + the line dispatch with every line macro enumerated",
          "transfer constants = yield x rate + Auger yield x name-derived Auger sum (double holes twice); vacancy production per variant; shell cross section = vacancy chain x yield for K..M5 in all 4 variants",
-         "L-beta sums of the Kissel line functions attempted in the thorough tier only; barn variants beyond those in C05 not under contract; orderings none<=rad<=full not decided; glue in pr_data.c main (A-gen)"),
+         "L-beta sums of the Kissel line functions attempted in the thorough tier only; single-line enumeration for the full-cascade instantiation of the shared macro; orderings none<=rad<=full not decided; glue in pr_data.c main (A-gen)"),
  "C09": ("proof", "UF-leaf value lemmas on CS_FluorShell + the four static Jump_from_* functions (symbolic edges: every energy regime) and CS_FluorLine (every line macro enumerated with a constant line, all other ints symbolic)",
          "shell cross section = photo x jump share x yield in every regime, each unavailable primitive is an error; line = rate x shell value; L-beta per-sub-shell factorised sum",
          "bit-exact in the library's operation order; L-beta compared in factorised form"),
